@@ -776,7 +776,13 @@ func (f *Frame) unop(x *ssa.UnOp, st *State, g Term) Val {
 func (vc *VC) markShared(v Val) {
 	switch v.K {
 	case KFunc:
-		for _, b := range v.Binds {
+		fn, _ := v.Fn.(*ssa.Function)
+		for i, b := range v.Binds {
+			if fn != nil && i < len(fn.FreeVars) && !closureMayWrite(fn, i, 0) {
+				// the function (and every function literal nested in it) only reads this captured variable:
+				// running it concurrently cannot change what the enclosing function reads
+				continue
+			}
 			vc.markShared(b)
 		}
 	case KStruct, KTuple:
@@ -1134,4 +1140,39 @@ func (vc *VC) refsOf(v Val) []Term {
 		}
 	}
 	return out
+}
+
+// closureMayWrite: may fn (or a function literal nested in it) assign the captured variable number idx,
+// or let its address escape? Loads are the only uses considered harmless.
+func closureMayWrite(fn *ssa.Function, idx int, depth int) bool {
+	if depth > 6 || idx >= len(fn.FreeVars) {
+		return true
+	}
+	fv := fn.FreeVars[idx]
+	refs := fv.Referrers()
+	if refs == nil {
+		return false
+	}
+	for _, r := range *refs {
+		switch x := r.(type) {
+		case *ssa.DebugRef:
+		case *ssa.UnOp:
+			if x.Op != token.MUL {
+				return true
+			}
+		case *ssa.MakeClosure:
+			inner, ok := x.Fn.(*ssa.Function)
+			if !ok {
+				return true
+			}
+			for j, b := range x.Bindings {
+				if b == ssa.Value(fv) && closureMayWrite(inner, j, depth+1) {
+					return true
+				}
+			}
+		default:
+			return true
+		}
+	}
+	return false
 }
